@@ -136,7 +136,9 @@ func (g *G) setup() {
 		g.win, g.maxMiss, g.frac = 20, 3, "0.01"
 	}
 	// supported chains
-	switch r.N(5) {
+	switch r.N(6) {
+	case 5:
+		g.chains = []string{"1", "Base"} // a chain id with letters: "base" is another chain id
 	case 4:
 		g.chains = []string{"1", world.ThisChain} // the chain's own id listed as a supported external chain
 	case 0:
@@ -258,7 +260,7 @@ func (g *G) block() {
 func (g *G) step() {
 	r := g.r
 	p := g.p
-	if !p.Isolate && ((p.Genesis && r.P(1, 10)) || r.P(1, 60)) {
+	if (p.Genesis && r.P(1, 10)) || r.P(1, 60) {
 		// the chain is restarted from its own export and goes on
 		g.emit("reimport")
 	}
@@ -409,7 +411,7 @@ func (g *G) record(t *tenant) {
 			req = rng.Pick(r, t.pending) // duplicate
 		}
 	case 1:
-		req = rng.Pick(r, []string{"", "r", "r1\x00", "\xff\xfe", "r10", "shared", "\xe2\x82\xac", "\xf0\x90\x80", "\xc0\xaf", " r", "r ", "\tr1", "r1\n"})
+		req = rng.Pick(r, []string{"", "r", "r1\x00", "\xff\xfe", "r10", "shared", "\xe2\x82\xac", "\xf0\x90\x80", "\xc0\xaf", " r", "r ", "\tr1", "r1\n", strings.Repeat("k", 64) + "A", strings.Repeat("k", 64) + "B", strings.Repeat("k", 64)})
 	}
 	amt := rng.Pick(r, []int{1, 2, 3, 7, 10, 50, 99, 400, 3000})
 	denom := t.denom
@@ -427,7 +429,7 @@ func (g *G) record(t *tenant) {
 			token = "0x1" + strings.Repeat("0", 40-len(token)+2) + token[2:]
 		}
 	case 4, 5, 6, 7, 8:
-		chain = rng.Pick(r, []string{"1", "137", "1", "eth-2"})
+		chain = rng.Pick(r, []string{"1", "137", "1", "eth-2", "Base", "base"})
 		contract = rng.Pick(r, contracts)
 		token = rng.Pick(r, tokens)
 		g.ext = append(g.ext, extNft{chain, contract, token})
@@ -598,10 +600,27 @@ func VoteHash(salt, vdTok string) string {
 }
 
 func (g *G) entry(n extNft, owner string) string {
-	return fmt.Sprintf("%s/%s/%s:%s", n.chain, n.contract, n.token, owner)
+	c, t, o := n.contract, n.token, owner
+	// the same NFT and owner in another letter case (lower case, upper case digits, as recorded): one value, whoever spells it
+	switch g.r.N(5) {
+	case 0:
+		c, t, o = strings.ToLower(c), strings.ToLower(t), strings.ToLower(o)
+	case 1:
+		up := func(h string) string {
+			if strings.HasPrefix(h, "0x") {
+				return "0x" + strings.ToUpper(h[2:])
+			}
+			return h
+		}
+		c, t, o = up(c), up(t), up(o)
+	}
+	return fmt.Sprintf("%s/%s/%s:%s", n.chain, c, t, o)
 }
 
 var ownerStrs = []string{"0x0101010101010101010101010101010101010101", "0x0202020202020202020202020202020202020202", "0x0303030303030303030303030303030303030303", "0x0", "0xABCDEF"}
+
+// owners spelled with letters, for the common votes of roundScript (letter case must not matter)
+var letterOwner = "0xaAbBcCdDeEfF0011223344556677889900AaBbCc"
 
 func (g *G) voteData(v int) string {
 	r := g.r
@@ -921,28 +940,39 @@ func (g *G) roundScript() {
 	var cms []cm
 	// one round in three, everybody reports the same owner for every external NFT of the history: one tally decides them all
 	common := ""
+	var commonN []extNft
+	var commonO []string
 	if r.P(1, 3) && len(g.ext) > 0 {
 		seen := map[extNft]bool{}
-		var es []string
 		fresh := r.P(1, 2) // owners that hold no account yet, a different one per NFT
 		for _, n := range g.ext {
-			if !seen[n] && len(es) < 6 {
+			if !seen[n] && len(commonN) < 6 {
 				seen[n] = true
 				o := ownerStrs[0]
 				if fresh {
-					o = "0x" + strings.Repeat(string("123456789abc"[(len(es)+int(g.height))%12]), 40)
+					o = "0x" + strings.Repeat(string("123456789abc"[(len(commonN)+int(g.height))%12]), 40)
+				} else if r.P(1, 3) {
+					o = letterOwner
 				}
-				es = append(es, e(g.entry(n, o)))
+				commonN = append(commonN, n)
+				commonO = append(commonO, o)
 			}
 		}
-		common = "O:" + strings.Join(es, ",")
+		common = "O:"
+	}
+	commonVD := func() string {
+		var es []string
+		for i, n := range commonN {
+			es = append(es, e(g.entry(n, commonO[i]))) // every validator spells it its own way
+		}
+		return "O:" + strings.Join(es, ",")
 	}
 	for v := 0; v < world.NVal; v++ {
 		if r.P(4, 5) {
 			salt := fmt.Sprintf("s%d", r.N(1000))
 			vd := g.voteData(v)
 			if common != "" && r.P(9, 10) {
-				vd = common
+				vd = commonVD()
 			}
 			g.emit("prevote o%d v%d %s %d", v, v, e(VoteHash(salt, vd)), rs)
 			cms = append(cms, cm{v, salt, vd})
@@ -1002,7 +1032,7 @@ func (g *G) malformedOp() {
 	case 3, 4, 5:
 		// malformed vote entries: prevote then vote
 		v := r.N(world.NVal)
-		ent := rng.Pick(r, []string{"1/0x1/0x1", "1/0x1:0x1", "nocolon", ":", "::", "1/0x1/0x1:0x2:0x3", "1/zz/0x1:0x1", "/0x1/0x1:0x1", "1/0x1/0x1/0x2:0x1", "", "1/0x1/0x1:", "999/0x1/0x1:0x1", strings.Repeat("9", 300) + "/0x1/0x1:0x1"})
+		ent := rng.Pick(r, []string{"1:0x777", "1/0x1/0x1", "1/0x1:0x1", "nocolon", ":", "::", "1/0x1/0x1:0x2:0x3", "1/zz/0x1:0x1", "/0x1/0x1:0x1", "1/0x1/0x1/0x2:0x1", "", "1/0x1/0x1:", "999/0x1/0x1:0x1", strings.Repeat("9", 300) + "/0x1/0x1:0x1"})
 		topic := rng.Pick(r, []string{"O", "O", "B", "U"})
 		vd := topic + ":" + e(ent)
 		if r.P(1, 3) {
